@@ -520,6 +520,7 @@ type orcState struct {
 	Text   string
 	Boards []orcBoard
 	snaps  map[string]*orcSnap
+	glob   int // 0 unknown, 1 no glob keys in the source, 2 glob keys present
 }
 
 func orcFS(files map[string]string) fstest.MapFS {
@@ -556,6 +557,25 @@ func orcNewState(g *d2graph.Graph, text string) *orcState {
 	}
 	rec(g, nil, nil, "root", -1, -1)
 	return st
+}
+
+// hasGlob: the source contains glob keys (they can only get there through hostile
+// operation arguments). A glob re-applies to whatever an edit creates, renames or removes,
+// so "every other element unchanged" is not what the language promises for such sources;
+// the element-level monitors count these operations instead of judging them.
+func (st *orcState) hasGlob() bool {
+	if st.glob == 0 {
+		st.glob = 1
+		if st.G != nil && st.G.AST != nil {
+			d2ast.Walk(st.G.AST, func(n d2ast.Node) bool {
+				if kp, ok := n.(*d2ast.KeyPath); ok && kp.HasGlob() {
+					st.glob = 2
+				}
+				return true
+			})
+		}
+	}
+	return st.glob == 2
 }
 
 func (st *orcState) snap(i int) *orcSnap {
